@@ -144,6 +144,137 @@ def mask_under_shift(f, n, under, seen):
     return out
 
 
+def _ep_evasion(ctx, ge, col):
+    """M2 for en passant. While in check the capture is a legal evasion exactly when it removes the checking pawn (the CAPTURED
+    pawn's square is in capture_mask) or lands on the checking line (the e.p. square is in push_mask). The conditions that
+    govern the emissions may only test membership of those two squares in the two masks; they are evaluated over the sixteen
+    valuations of {captured-square, e.p.-square} x {capture_mask, push_mask} (a finite model of the masks restricted to the
+    two squares) and must let the emissions through exactly when that disjunction holds."""
+    import itertools
+    from rules.norm import Norm, Unknown
+    nm = Norm(ge)
+    cs_str = '(enpassant_square-8)' if col == 'WHITE' else '(enpassant_square+8)'
+    MASKS = ('capture_mask', 'push_mask')
+
+    def mentions(c):
+        for x in walk(c):
+            if x.get('ref', {}).get('n') in MASKS:
+                return True
+            r = x.get('ref') or {}
+            if r.get('k') == 'Local':
+                from rules.effects import single_def
+                d = single_def(ge, r['id'])
+                if d is not None and any(y.get('ref', {}).get('n') in MASKS for y in walk(d)):
+                    return True
+        return False
+
+    def bb(n, U):
+        n = nm.resolve(n)
+        while n['k'] in ('ParenExpr', 'ExprWithCleanups') and kids(n):
+            n = nm.resolve(kids(n)[0])
+        r = n.get('ref') or {}
+        if r.get('k') == 'Parm' and r['n'] in MASKS:
+            return frozenset(q for q in ('ep', 'cs') if U[(r['n'], q)])
+        if (n.get('callee') or {}).get('n') == 'engine::square_bb':
+            t = nm.s(kids(n)[1])
+            if t == 'enpassant_square':
+                return frozenset(['ep'])
+            if t == cs_str:
+                return frozenset(['cs'])
+            raise Unknown('square_bb(%s)' % t)
+        if n['k'] == 'BinaryOperator' and n.get('op') in ('&', '|', '^'):
+            a, b = bb(kids(n)[0], U), bb(kids(n)[1], U)
+            return {'&': a & b, '|': a | b, '^': a ^ b}[n['op']]
+        if n['k'] == 'UnaryOperator' and n.get('op') == '~':
+            return frozenset(['ep', 'cs']) - bb(kids(n)[0], U)
+        if n.get('cv') == 0 or const_of(n) == 0:
+            return frozenset()
+        raise Unknown(nm.s(n))
+
+    def tv(n, U):
+        m = nm.resolve(n)
+        while m['k'] in ('ParenExpr', 'ExprWithCleanups') and kids(m):
+            m = nm.resolve(kids(m)[0])
+        if m['k'] == 'BinaryOperator' and m.get('op') in ('&&', '||'):
+            a = tv(kids(m)[0], U)
+            if m['op'] == '&&':
+                return a and tv(kids(m)[1], U)
+            return a or tv(kids(m)[1], U)
+        if m['k'] == 'UnaryOperator' and m.get('op') == '!':
+            return not tv(kids(m)[0], U)
+        if m['k'] == 'BinaryOperator' and m.get('op') in ('!=', '==') and const_of(nm.resolve(kids(m)[1])) == 0:
+            v = bool(bb(kids(m)[0], U))
+            return v if m['op'] == '!=' else not v
+        return bool(bb(m, U))
+
+    ems = emissions(ge)
+    keys = [(mk, q) for mk in MASKS for q in ('ep', 'cs')]
+    n_eval = 0
+    seen_mask_cond = [False]
+
+    def reach(st, target, U):
+        """(target reached on some path consistent with U, control may fall through st); conditions that do not mention the
+        masks are free"""
+        if st is None:
+            return False, True
+        if st is target or ge.inside(target, st) and st['k'] not in ('CompoundStmt', 'IfStmt', 'ForStmt', 'WhileStmt', 'DoStmt',
+                                                                      'SwitchStmt', 'CXXForRangeStmt'):
+            return True, st['k'] != 'ReturnStmt'
+        k = st['k']
+        if k == 'CompoundStmt':
+            for c in kids(st):
+                r, ft = reach(c, target, U)
+                if r:
+                    return True, ft
+                if not ft:
+                    return False, False
+            return False, True
+        if k == 'IfStmt':
+            ch = [x for x in (st.get('ch') or [])]
+            cond, th, el = ch[-3] if len(ch) >= 3 else ch[0], None, None
+            ks = kids(st)
+            cond, th = ks[0], ks[1]
+            el = ks[2] if len(ks) > 2 else None
+            if mentions(cond):
+                seen_mask_cond[0] = True
+                arms = [th] if tv(cond, U) else [el]
+            else:
+                arms = [th, el]
+            res = [reach(a, target, U) for a in arms]
+            return any(r for r, _ in res), any(ft for _, ft in res)
+        if k == 'ReturnStmt':
+            return False, False
+        if k in ('ForStmt', 'WhileStmt', 'DoStmt', 'CXXForRangeStmt'):
+            body = kids(st)[-1]
+            r, _ = reach(body, target, U)
+            return r, True
+        if k == 'SwitchStmt':
+            raise Unknown('switch statement')
+        return False, True
+
+    for em, creator, args in ems:
+        bad = None
+        for bits in itertools.product((False, True), repeat=4):
+            U = dict(zip(keys, bits))
+            try:
+                r, _ = reach(ge.body, em, U)
+            except Unknown as e:
+                raise AnalysisBroken('C01.M2.ep-evasion: the evasion filter of generate_enpassant tests %s, which is not a membership '
+                                     'test of the e.p./captured square in the masks' % e)
+            n_eval += 1
+            want = U[('capture_mask', 'cs')] or U[('push_mask', 'ep')]
+            if r != want and bad is None:
+                bad = 'captured pawn %s capture_mask, e.p. square %s push_mask, e.p. square %s capture_mask: the capture is %s' % (
+                    'in' if U[('capture_mask', 'cs')] else 'not in', 'in' if U[('push_mask', 'ep')] else 'not in',
+                    'in' if U[('capture_mask', 'ep')] else 'not in', 'generated' if r else 'dropped')
+        if not seen_mask_cond[0]:
+            raise AnalysisBroken('C01.M2.ep-evasion: no condition on capture_mask/push_mask governs the e.p. emission at %s' % ge.loc(em))
+        ctx.ob('C01.M2.ep-evasion', 'generate_enpassant<%s>:%s' % (col, ge.loc(em).split(':')[-1]), bad is None,
+               'the e.p. capture passes the evasion filter exactly when the captured pawn is the checker (its square in capture_mask) '
+               'or the e.p. square blocks the check (in push_mask)%s' % ('' if bad is None else ' — ' + bad), site=ge.loc(em))
+    return n_eval
+
+
 def check(ctx):
     p = ctx.prog()
     dirs = p.enum('engine::Direction')
@@ -201,6 +332,7 @@ def check(ctx):
         ems = emissions(ge)
         tg = set(canon(ge, a[1], inline=False) for _, _, a in ems)
         fr = sorted(canon(ge, a[0]).replace(' ', '') for _, _, a in ems)
+        _ep_evasion(ctx, ge, col)
         ctx.ob('C01.M1.ep-emission', 'generate_enpassant<%s>' % col, len(ems) == 2 and tg == {'enpassant_square'},
                'both capturing directions are emitted onto the e.p. square (%s)' % fr, site=ge.loc())
         # horizontal discovered-check test when exactly one pawn can capture
